@@ -22,6 +22,7 @@ def gen_history(rng):
     n = rng.randint(1, 12)
     names = []
     fns = []
+    fns0 = []
     arrs = []
     hist = []
     k = 0
@@ -41,8 +42,13 @@ def gen_history(rng):
             hist.append(("let %s = %d;" % (nm, rng.randint(100, 200)), "ok"))       # redefinition
         elif c < 0.38:
             fn = "f%d" % k
-            hist.append(("fn %s(x) { x + %s }" % (fn, pick(names)), "ok"))
-            fns.append(fn)
+            if rng.random() < 0.35:
+                # reads a global from inside a body, defined and used in one line
+                hist.append(("fn %s() { return %s; } puts(%s());" % (fn, pick(names), fn), "ok"))
+                fns0.append(fn)
+            else:
+                hist.append(("fn %s(x) { x + %s }" % (fn, pick(names)), "ok"))
+                fns.append(fn)
         elif c < 0.44:
             a = "a%d" % k
             hist.append(("let %s = [%s];" % (a, pick(names)), "ok"))
@@ -50,8 +56,11 @@ def gen_history(rng):
         elif c < 0.56:
             what = pick(names + arrs)
             hist.append((rng.choice(["puts(%s);", "puts(\"val \", %s);", "println(\"{}\", %s);"]) % what, "ok"))
-        elif c < 0.62 and fns:
-            hist.append(("puts(%s(%d));" % (pick(fns), rng.randint(0, 9)), "ok"))
+        elif c < 0.62 and (fns or fns0):
+            if fns0 and (not fns or rng.random() < 0.5):
+                hist.append(("puts(%s());" % pick(fns0), "ok"))
+            else:
+                hist.append(("puts(%s(%d));" % (pick(fns), rng.randint(0, 9)), "ok"))
         elif c < 0.70:
             hist.append((rng.choice(["%s * 2", "%s", "[%s, 1]", "%s == %s" % ("%s", "%s")]).replace("%s", pick(names)), "ok"))   # echoed value
         elif c < 0.75:
@@ -65,10 +74,17 @@ def gen_history(rng):
             nm = pick(names)
             hist.append((rng.choice(["zz%d" % k, "let n%d = zz;" % k, "let %s = zz;" % nm, "break;", "fn g%d() { zz }" % k, "puts(%s); zz" % nm,
                                       "let m%d = 1; zz" % k, "return 1;", "fn h%d(a) { let q = a; { let r = q; } r }" % k, "%s = zz" % nm,
-                                      "let p%d = fn() { zz };" % k, "match 1 { 1 => 1, \"a\" => 2 }"]), "compile"))
+                                      "let p%d = fn() { zz };" % k, "match 1 { 1 => 1, \"a\" => 2 }",
+                                      "if true { let %s = 5; zz; }" % nm, "{ let %s = \"inner\"; zz }" % nm, "while false { let %s = 2; zz }" % nm,
+                                      "fn e%d(%s) { zz }" % (k, nm), "let t%d = \"lit\"; let u%d = [1, 2.5, \"more\"]; zz" % (k, k)]), "compile"))
         else:
             nm = "w%d" % k
             pre = "let %s = %d; puts(\"before %d\");" % (nm, k, k)
+            if rng.random() < 0.4:
+                # definitions with their own constants in a line that then fails
+                fn = "rf%d" % k
+                pre = "fn %s() { return \"lit %d\"; } %s let s%d = \"text %d\";" % (fn, k, pre, k, k)
+                fns0.append(fn)
             fail = rng.choice(["1 / 0", "%s[0]" % pick(names), "len(%s)" % pick(names), "%s(1)" % pick(names), "[1][5]"])
             hist.append((pre + " " + fail, "runtime", pre))
             names.append(nm)
